@@ -81,14 +81,10 @@ theorem gsubLoop_total : ∀ (fuel : Nat) (s : St) (work : List (Int × Rule)),
         rw [← hd]; simpa using h0
       · exact ⟨_, rfl⟩
 
-theorem subsetGsub_total (o : Order) (s : St) (l : Layout GsubSub) :
-    ∃ r, subsetGsub o s l = some r := by
-  unfold subsetGsub
-  simp only
-  obtain ⟨s', hs'⟩ := gsubLoop_total ((o.rules (rulesOf l)).length + 1) s
-    ((o.rules (rulesOf l)).map fun r => (Int.ofNat (missing s.newGid r.ins), r)) (by simp)
-  rw [hs']
-  exact ⟨_, rfl⟩
+theorem gsubClose_total (ro : List Rule → List Rule) (s : St) (l : Layout GsubSub) :
+    ∃ t, gsubClose ro s l = some t := by
+  unfold gsubClose
+  exact gsubLoop_total _ s _ (by simp)
 
 /-! ### the `todo` loop: soundness -/
 
@@ -258,52 +254,239 @@ theorem compBound_spec (f : Font) : ∀ g, ∀ c ∈ (f.glyph g).comps, c < comp
       exact List.mem_flatMap.2 ⟨gl, List.mem_of_getElem? hx, by simpa using hc⟩
   exact Nat.lt_succ_of_le (le_sum_of_mem _ c hmem)
 
-/-! ### `subset` never answers "illegal order" for a suitable `pop` sequence -/
+/-! ### the outer loop terminates: every round that continues appends a glyph below the bound -/
 
-/-- the GSUB stage of `subset`, as a function of the rule order only -/
-def gsubStage (f : Font) (glyphs : List Gid) (ro : List Rule → List Rule) :
-    Option (St × Option (Layout GsubOut)) :=
+theorem push_meas {M : Nat} {s : St} {c : Gid} (hc : c < M) (hn : ¬ s.has c = true) :
+    unseen M (s.push c) + (s.push c).glyphs.length ≤ unseen M s + s.glyphs.length := by
+  have := unseen_push hc hn
+  simp only [St.push, List.length_append, List.length_cons, List.length_nil] at this ⊢
+  have h2 : unseen M (s.push c) < unseen M s := this
+  simp only [St.push] at h2
+  omega
+
+theorem addOuts_meas (M : Nat) : ∀ (outs : List Gid) (s : St) (added : List Gid),
+    (∀ o ∈ outs, o < M) →
+    unseen M (addOuts s added outs).1 + (addOuts s added outs).1.glyphs.length ≤
+      unseen M s + s.glyphs.length := by
+  intro outs
+  induction outs with
+  | nil => intro s added _; simp [addOuts]
+  | cons o os ih =>
+    intro s added h
+    simp only [addOuts]
+    split
+    · exact ih s added (fun x hx => h x (List.mem_cons_of_mem _ hx))
+    · rename_i hn
+      have h1 := ih (s.getNewGid o).1 (o :: added) (fun x hx => h x (List.mem_cons_of_mem _ hx))
+      rw [getNewGid_of_not_has hn] at h1 ⊢
+      have h2 := push_meas (h o List.mem_cons_self) hn
+      omega
+
+theorem sweep_meas (M : Nat) : ∀ (work : List (Int × Rule)) (s : St) (added : List Gid),
+    (∀ w ∈ work, ∀ o ∈ w.2.outs, o < M) →
+    unseen M (sweep s added work).1 + (sweep s added work).1.glyphs.length ≤
+      unseen M s + s.glyphs.length := by
+  intro work
+  induction work with
+  | nil => intro s added _; simp [sweep]
+  | cons w ws ih =>
+    intro s added h
+    simp only [sweep]
+    split
+    · have h1 := addOuts_meas M w.2.outs s added (h w List.mem_cons_self)
+      have h2 := ih (addOuts s added w.2.outs).1 (addOuts s added w.2.outs).2
+        (fun x hx => h x (List.mem_cons_of_mem _ hx))
+      omega
+    · exact ih s added (fun x hx => h x (List.mem_cons_of_mem _ hx))
+
+theorem sweep_rest_sub : ∀ (work : List (Int × Rule)) (s : St) (added : List Gid),
+    ∀ w ∈ (sweep s added work).2.2, w ∈ work := by
+  intro work
+  induction work with
+  | nil => intro s added w hw; simp [sweep] at hw
+  | cons x xs ih =>
+    intro s added w hw
+    simp only [sweep] at hw
+    split at hw
+    · exact List.mem_cons_of_mem _ (ih _ _ w hw)
+    · rcases List.mem_cons.1 hw with rfl | hw
+      · exact List.mem_cons_self
+      · exact List.mem_cons_of_mem _ (ih _ _ w hw)
+
+theorem gsubLoop_meas (M : Nat) : ∀ (fuel : Nat) (s : St) (work : List (Int × Rule)) (s' : St),
+    (∀ w ∈ work, ∀ o ∈ w.2.outs, o < M) → gsubLoop fuel s work = some s' →
+    unseen M s' + s'.glyphs.length ≤ unseen M s + s.glyphs.length := by
+  intro fuel
+  induction fuel with
+  | zero => intro s work s' _ h; simp [gsubLoop] at h
+  | succ fuel ih =>
+    intro s work s' h hr
+    simp only [gsubLoop] at hr
+    have h1 := sweep_meas M work s [] h
+    split at hr
+    · have h2 := ih _ _ s' (by
+        intro w' hw' o ho
+        obtain ⟨w, hw, rfl⟩ := List.mem_map.1 hw'
+        exact h w (sweep_rest_sub work s [] w hw) o ho) hr
+      omega
+    · injection hr with hr; subst hr; exact h1
+
+theorem addComps_meas (M : Nat) : ∀ (cs : List Gid) (s : St) (todo : List Gid),
+    (∀ c ∈ cs, c < M) →
+    unseen M (addComps s todo cs).1 + (addComps s todo cs).1.glyphs.length ≤
+      unseen M s + s.glyphs.length := by
+  intro cs
+  induction cs with
+  | nil => intro s todo _; simp [addComps]
+  | cons c cs ih =>
+    intro s todo h
+    simp only [addComps]
+    split
+    · exact ih s todo (fun x hx => h x (List.mem_cons_of_mem _ hx))
+    · rename_i hn
+      have h1 := ih (s.push c) (todo ++ [c]) (fun x hx => h x (List.mem_cons_of_mem _ hx))
+      have h2 := push_meas (h c List.mem_cons_self) hn
+      omega
+
+theorem closeGlyf_meas (f : Font) (M : Nat) (hM : ∀ g, ∀ c ∈ (f.glyph g).comps, c < M) :
+    ∀ (pops : List Gid) (s : St) (todo : List Gid) (s' : St), closeGlyf f pops s todo = some s' →
+    unseen M s' + s'.glyphs.length ≤ unseen M s + s.glyphs.length := by
+  intro pops
+  induction pops with
+  | nil =>
+    intro s todo s' hr
+    simp only [closeGlyf] at hr
+    split at hr
+    · injection hr with hr; subst hr; exact Nat.le_refl _
+    · cases hr
+  | cons p ps ih =>
+    intro s todo s' hr
+    simp only [closeGlyf] at hr
+    split at hr
+    · have h1 := addComps_meas M (f.glyph p).comps s (todo.filter (· != p)) (hM p)
+      have h2 := ih _ _ s' hr
+      omega
+    · cases hr
+
+theorem ext_length {s s' : St} (e : Ext s s') : s.glyphs.length ≤ s'.glyphs.length := by
+  obtain ⟨x, hx⟩ := e; rw [hx]; simp
+
+/-- all GSUB rules of a font (none without a GSUB table) -/
+def fontRules (f : Font) : List Rule :=
   match f.gsub with
-  | none => some (St.init glyphs, none)
-  | some l => (subsetGsub ⟨ro, []⟩ (St.init glyphs) l).map fun r => (r.1, some r.2)
+  | none => []
+  | some l => rulesOf l
 
-theorem gsubStage_total (f : Font) (glyphs : List Gid) (ro : List Rule → List Rule) :
-    ∃ r, gsubStage f glyphs ro = some r := by
-  unfold gsubStage
-  cases f.gsub with
-  | none => exact ⟨_, rfl⟩
-  | some l =>
-    obtain ⟨r, hr⟩ := subsetGsub_total ⟨ro, []⟩ (St.init glyphs) l
-    simp only [hr, Option.map_some]
-    exact ⟨_, rfl⟩
+/-- a bound on all component ids and all rule outputs of a font -/
+def glyphBound (f : Font) : Nat := compBound f + ((fontRules f).flatMap (·.outs)).sum + 1
 
-theorem subset_total (f : Font) (glyphs : List Gid) (ro : List Rule → List Rule) :
-    ∃ pops, ∀ e, subset f glyphs ⟨ro, pops⟩ ≠ .err e := by
-  obtain ⟨⟨s1, gs⟩, h1⟩ := gsubStage_total f glyphs ro
-  obtain ⟨pops, s2, h2⟩ := closeGlyf_total f (compBound f) (compBound_spec f) _ s1 s1.glyphs (Nat.le_refl _)
-  refine ⟨pops, ?_⟩
-  intro e he
-  have h1' : (match f.gsub with
-      | none => some (St.init glyphs, none)
-      | some l => (subsetGsub ⟨ro, pops⟩ (St.init glyphs) l).map fun r => (r.1, some r.2)) = some (s1, gs) := h1
-  unfold subset at he
-  simp only at he
-  split at he
-  · rename_i hg1
-    have := h1'.symm.trans hg1; cases this
-  · rename_i s1' gsub' hg1
-    have hg1 := h1'.symm.trans hg1
-    injection hg1 with hg1
-    have e1 : s1 = s1' := congrArg (fun p => p.1) hg1
-    subst e1
-    split at he
-    · rename_i hs2
+theorem glyphBound_comps (f : Font) : ∀ g, ∀ c ∈ (f.glyph g).comps, c < glyphBound f := by
+  intro g c hc
+  have := compBound_spec f g c hc
+  unfold glyphBound
+  exact Nat.lt_of_lt_of_le this (by omega)
+
+theorem glyphBound_outs (f : Font) : ∀ r ∈ fontRules f, ∀ o ∈ r.outs, o < glyphBound f := by
+  intro r hr o ho
+  have := le_sum_of_mem ((fontRules f).flatMap (·.outs)) o (List.mem_flatMap.2 ⟨r, hr, ho⟩)
+  unfold glyphBound
+  exact Nat.lt_of_le_of_lt this (by omega)
+
+/-- the outer loop has a run from every state: for every choice of rule orders there are `pop`
+sequences, one per round, with which `closeAll` succeeds -/
+theorem closeAll_total (f : Font) (ro : Nat → List Rule → List Rule)
+    (hp : ∀ k x, (ro k x).Perm x) :
+    ∀ (n : Nat) (s : St) (k : Nat), Inv s → unseen (glyphBound f) s ≤ n →
+    ∃ pss s', closeAll f ro k pss s = some s' := by
+  intro n
+  induction n with
+  | zero =>
+    intro s k h hn
+    -- same argument as the step; a continuing round would need an unseen glyph
+    obtain ⟨s1, hs1, hi1, he1, hm1⟩ : ∃ s1, gsubRound f (ro k) s = some s1 ∧ Inv s1 ∧ Ext s s1 ∧
+        unseen (glyphBound f) s1 + s1.glyphs.length ≤ unseen (glyphBound f) s + s.glyphs.length := by
+      unfold gsubRound
+      cases hg : f.gsub with
+      | none => exact ⟨s, rfl, h, Ext.refl s, Nat.le_refl _⟩
+      | some l =>
+        obtain ⟨t, ht⟩ := gsubClose_total (ro k) s l
+        have hgood := gsubClose_good h ht
+        refine ⟨t, ht, hgood.1, hgood.2, ?_⟩
+        apply gsubLoop_meas (glyphBound f) _ s _ t _ ht
+        intro w hw o ho
+        obtain ⟨r, hr, rfl⟩ := List.mem_map.1 hw
+        apply glyphBound_outs f r _ o ho
+        unfold fontRules; rw [hg]
+        exact (hp k (rulesOf l)).mem_iff.1 hr
+    obtain ⟨ps, s2, hs2, he2, hm2⟩ : ∃ ps s2,
+        glyfRound f ps s1 = some s2 ∧ Ext s1 s2 ∧
+        unseen (glyphBound f) s2 + s2.glyphs.length ≤ unseen (glyphBound f) s1 + s1.glyphs.length := by
+      unfold glyfRound
       cases hc : f.isCFF with
-      | true => rw [hc] at hs2; simp at hs2
+      | true => exact ⟨[], s1, by simp, Ext.refl s1, Nat.le_refl _⟩
       | false =>
-        rw [hc] at hs2
-        simp only [Bool.false_eq_true, if_false] at hs2
-        rw [h2] at hs2; cases hs2
-    · split at he <;> cases he
+        obtain ⟨ps, s2, hr⟩ := closeGlyf_total f (glyphBound f) (glyphBound_comps f) _ s1 s1.glyphs
+          (Nat.le_refl _)
+        have hd : Done f s1 s1.glyphs := fun g hg hn => absurd hg hn
+        have hsp := closeGlyf_spec f ps s1 s1.glyphs s2 hi1 hd hr
+        exact ⟨ps, s2, by simpa using hr, hsp.2.1,
+          closeGlyf_meas f (glyphBound f) (glyphBound_comps f) ps s1 s1.glyphs s2 hr⟩
+    have hl1 := ext_length he1
+    have hl2 := ext_length he2
+    refine ⟨[ps], s2, ?_⟩
+    simp only [closeAll, hs1, hs2]
+    have : s2.glyphs.length = s.glyphs.length := by omega
+    simp [this]
+  | succ n ih =>
+    intro s k h hn
+    obtain ⟨s1, hs1, hi1, he1, hm1⟩ : ∃ s1, gsubRound f (ro k) s = some s1 ∧ Inv s1 ∧ Ext s s1 ∧
+        unseen (glyphBound f) s1 + s1.glyphs.length ≤ unseen (glyphBound f) s + s.glyphs.length := by
+      unfold gsubRound
+      cases hg : f.gsub with
+      | none => exact ⟨s, rfl, h, Ext.refl s, Nat.le_refl _⟩
+      | some l =>
+        obtain ⟨t, ht⟩ := gsubClose_total (ro k) s l
+        have hgood := gsubClose_good h ht
+        refine ⟨t, ht, hgood.1, hgood.2, ?_⟩
+        apply gsubLoop_meas (glyphBound f) _ s _ t _ ht
+        intro w hw o ho
+        obtain ⟨r, hr, rfl⟩ := List.mem_map.1 hw
+        apply glyphBound_outs f r _ o ho
+        unfold fontRules; rw [hg]
+        exact (hp k (rulesOf l)).mem_iff.1 hr
+    obtain ⟨ps, s2, hs2, hi2, he2, hm2⟩ : ∃ ps s2,
+        glyfRound f ps s1 = some s2 ∧ Inv s2 ∧ Ext s1 s2 ∧
+        unseen (glyphBound f) s2 + s2.glyphs.length ≤ unseen (glyphBound f) s1 + s1.glyphs.length := by
+      unfold glyfRound
+      cases hc : f.isCFF with
+      | true => exact ⟨[], s1, by simp, hi1, Ext.refl s1, Nat.le_refl _⟩
+      | false =>
+        obtain ⟨ps, s2, hr⟩ := closeGlyf_total f (glyphBound f) (glyphBound_comps f) _ s1 s1.glyphs
+          (Nat.le_refl _)
+        have hd : Done f s1 s1.glyphs := fun g hg hn => absurd hg hn
+        have hsp := closeGlyf_spec f ps s1 s1.glyphs s2 hi1 hd hr
+        exact ⟨ps, s2, by simpa using hr, hsp.1, hsp.2.1,
+          closeGlyf_meas f (glyphBound f) (glyphBound_comps f) ps s1 s1.glyphs s2 hr⟩
+    have hl1 := ext_length he1
+    have hl2 := ext_length he2
+    by_cases heq : s2.glyphs.length = s.glyphs.length
+    · refine ⟨[ps], s2, ?_⟩
+      simp only [closeAll, hs1, hs2]
+      simp [heq]
+    · obtain ⟨pss, s', hr⟩ := ih s2 (k + 1) hi2 (by omega)
+      refine ⟨ps :: pss, s', ?_⟩
+      simp only [closeAll, hs1, hs2]
+      simp [heq, hr]
+
+/-- `subset` never answers "illegal order" for suitable `pop` sequences -/
+theorem subset_total (f : Font) (glyphs : List Gid) (hnd : glyphs.Nodup)
+    (ro : Nat → List Rule → List Rule) (hp : ∀ k x, (ro k x).Perm x) :
+    ∃ pss, ∀ e, subset f glyphs ⟨ro, pss⟩ ≠ .err e := by
+  obtain ⟨pss, s', hr⟩ := closeAll_total f ro hp _ (St.init glyphs) 0 (init_inv hnd) (Nat.le_refl _)
+  refine ⟨pss, ?_⟩
+  intro e he
+  unfold subset at he
+  simp only [hr] at he
+  split at he <;> cases he
 
 end SfntV.Subset
